@@ -2,6 +2,7 @@ package main
 
 import (
 	"fmt"
+	"github.com/hslam/socket"
 
 	"github.com/hslam/rpc"
 	vs "verif/shim/vsync"
@@ -546,4 +547,67 @@ func c05BigSmall(x *X) {
 
 func init() {
 	register(&Scenario{Prop: "C05", Name: "c05/big-and-small-replies", Quick: []Bound{{1, 0}}, Thorough: []Bound{{2, 0}}, Body: c05BigSmall, BudgetQ: 20, MaxSteps: 400000})
+}
+
+// the options of a client connection set in every order around Dial: rpc.NewConn(), then
+// SetPipelining / SetDirectIO before or after Conn.Dial, or DialWithOptions followed by the setters:
+// with client pipelining on, asynchronous calls from one goroutine complete in issue order whichever
+// way the connection was made.
+func c05ConnConstruction(x *X) {
+	how := x.Choose(3) // NewConn+SetPipelining+Dial / NewConn+Dial+SetPipelining / DialWithOptions+SetPipelining
+	cliDio := x.Choose(2) == 1
+	n := newNet()
+	w := newWorld()
+	so := srvOpts{bufSize: 64, pipelining: true, codec: yieldBytesCodec}
+	srv, _ := startListener(n, w, "srv", so, false)
+	vs.Quiesce()
+	newCodec := func(m socket.Messages) rpc.ClientCodec { return rpc.NewClientCodec(yieldBytesCodec(), nil, m, 64) }
+	var conn *rpc.Conn
+	var err error
+	switch how {
+	case 0:
+		conn = rpc.NewConn()
+		conn.SetPipelining(true)
+		if cliDio {
+			conn.SetDirectIO(true)
+		}
+		_, err = conn.Dial(n.Socket(nil), "srv", newCodec)
+	case 1:
+		conn = rpc.NewConn()
+		_, err = conn.Dial(n.Socket(nil), "srv", newCodec)
+		conn.SetPipelining(true)
+		if cliDio {
+			conn.SetDirectIO(true)
+		}
+	case 2:
+		conn, err = rpc.DialWithOptions("srv", so.options(n, 64))
+		if err == nil {
+			conn.SetPipelining(true)
+			if cliDio {
+				conn.SetDirectIO(true)
+			}
+		}
+	}
+	if err != nil || conn == nil {
+		x.Fail("C05/dial-failed/construction", "making the connection (way %d) failed: %v", how, err)
+		return
+	}
+	f := &fixture{w: w, srv: srv, conn: conn, so: so}
+	f.cl = n.conns[0].end
+	c := c05IssueU(f, 1, 4, 2)
+	vs.Quiesce()
+	c.collect()
+	if len(c.order) != len(c.tags) {
+		x.Fail("C05/incomplete/construction", "%d of %d calls were signalled (connection made in way %d)", len(c.order), len(c.tags), how)
+	} else if fmt.Sprint(c.order) != fmt.Sprint(c.tags) {
+		x.Fail("C05/completion-order/construction", "calls issued in order %v on a pipelining connection (made by %s, client direct I/O %v) were signalled complete in order %v", c.tags, []string{"NewConn, SetPipelining, Dial", "NewConn, Dial, SetPipelining", "DialWithOptions, SetPipelining"}[how], cliDio, c.order)
+	}
+	x.Outcome("how=%d dio=%v order=%v", how, cliDio, c.order)
+	conn.Close()
+	srv.Close()
+	vs.Quiesce()
+}
+
+func init() {
+	register(&Scenario{Prop: "C05", Name: "c05/connection-construction-orders", Quick: []Bound{{1, 0}}, Thorough: []Bound{{2, 0}}, Body: c05ConnConstruction, BudgetQ: 15, MaxSteps: 200000})
 }
